@@ -1019,6 +1019,11 @@ def plan(prop, tier, seed, known):
         sel = range(parts) if not q else [(seed * 4 + k) % parts for k in range(4)]
         for k in sel:
             jobs.append({"name": "win%d" % k, "kind": "lin", "driver": ["windows", "-part", str(k), "-parts", str(parts)]})
+        # concurrent clients through the repository's RPC layer, one connection each (its buffers and dispatch under concurrency)
+        for i in range(1 if q else 8):
+            jobs.append({"name": "linrpc%d" % i, "kind": "lin",
+                         "driver": ["conc", "-seed", str(seed * 100 + 80 + i), "-segs", "6" if q else "20", "-steps", "10",
+                                    "-clients", str(2 + i % 3), "-avoid", av, "-transport"]})
         jobs.append({"name": "wingetalloc", "kind": "lin", "driver": ["windows", "-part", "-1", "-parts", "1"]})
         for k in range(7):   # third family: the inode number is recycled for a new object inside the victim's lock-free window
             jobs.append({"name": "winrecycle%d" % k, "kind": "lin", "also": ["C08"], "driver": ["windows", "-part", "-2", "-parts", "7", "-seed", str(k)]})
